@@ -23,6 +23,7 @@ from . import session_rig as sr
 CFG = """SPECIFICATION SSpec
 CONSTANTS
   Assets <- MCAssets
+  Bug = "none"
   AssetSeq <- MCAssetSeq
   Cases <- CaseList
 INVARIANT Report
